@@ -121,6 +121,15 @@ var (
 	wdStarted bool
 )
 
+// watchLimit: how long one watched call or scenario may take before it is reported as a hang. Under the race detector
+// (thorough tier) everything is an order of magnitude slower.
+func watchLimit() time.Duration {
+	if raceBuild {
+		return 120 * time.Second
+	}
+	return 15 * time.Second
+}
+
 func watch(what string) {
 	wdMu.Lock()
 	wdArmed, wdWhat = time.Now(), what
@@ -132,16 +141,16 @@ func watch(what string) {
 				wdMu.Lock()
 				armed, w := wdArmed, wdWhat
 				wdMu.Unlock()
-				if !armed.IsZero() && time.Since(armed) > 15*time.Second {
+				if !armed.IsZero() && time.Since(armed) > watchLimit() {
 					prop := curFocus
 					if prop == "" {
 						prop = "C07"
 					}
 					if curMeta != nil {
-						curMeta.violate(prop, "the implementation did not return from "+w+" within 15 s (deadlock or livelock)", w)
+						curMeta.violate(prop, "the implementation did not return from "+w+fmt.Sprintf(" within %v (deadlock or livelock)", watchLimit()), w)
 						if curFocus == "" {
 							for _, p := range []string{"C01", "C02", "C03", "C04", "C05", "C06", "C08", "C09", "C10", "C11", "C12", "C13", "C14", "C15", "C17", "C20"} {
-								curMeta.violate(p, "the implementation did not return from "+w+" within 15 s (deadlock or livelock)", w)
+								curMeta.violate(p, "the implementation did not return from "+w+fmt.Sprintf(" within %v (deadlock or livelock)", watchLimit()), w)
 							}
 						}
 						curMeta.write(curOut)
